@@ -196,6 +196,10 @@ def _producer_keys(p):
                 return dict_keys(v.args[0], depth + 1)
             if isinstance(f, ast.Attribute) and f.attr == "copy" and not v.args:
                 return dict_keys(f.value, depth + 1)
+            if isinstance(f, ast.Attribute) and f.attr == "fromkeys" and isinstance(f.value, ast.Name) and f.value.id in ("dict", "OrderedDict") \
+                    and v.args and isinstance(v.args[0], (ast.Tuple, ast.List)) and all(
+                        isinstance(e, ast.Constant) and isinstance(e.value, str) for e in v.args[0].elts):
+                return {e.value for e in v.args[0].elts}      # dict.fromkeys(("name", ..), fill)
             if isinstance(f, ast.Name) and f.id == "deepcopy" and v.args:
                 return dict_keys(v.args[0], depth + 1)
         if isinstance(v, ast.Name) and v.id in fi.module.globals:
@@ -658,6 +662,24 @@ def rule_total(ctx):
     prod_fi, prod_keys = _producer_keys(p)
     cfg = build_cfg(p, fi)
     prov = Provenance(cfg)
+    # the fields a pattern does not capture come back as text (''): the consumers strip / test them without a None guard
+    for sub in walk_shallow(prod_fi.node):
+        fills = None
+        if isinstance(sub, ast.Call) and isinstance(sub.func, ast.Attribute) and sub.func.attr == "fromkeys" and sub.args \
+                and isinstance(sub.args[0], (ast.Tuple, ast.List)) and {e.value for e in sub.args[0].elts if isinstance(e, ast.Constant)} >= set(prod_keys):
+            fills = [sub.args[1]] if len(sub.args) > 1 else [None]
+        elif isinstance(sub, ast.Dict) and sub.keys and all(isinstance(k, ast.Constant) for k in sub.keys) \
+                and {k.value for k in sub.keys} >= set(prod_keys):
+            fills = list(sub.values)
+        if fills is None:
+            continue
+        not_text = [f for f in fills if f is None or (isinstance(f, ast.Constant) and not isinstance(f.value, str))]
+        ctx.check(not not_text, "HDR.TOTAL", "reader.read_header_line#default-fields", prod_fi, sub,
+                  "fields the matching pattern does not capture default to text",
+                  "the default of a field the matching pattern does not capture is %s, not text: a line such as `NAME : VALUE` (no unit, "
+                  "no description group) hands None to the section parser, whose strip()/comparison outside the error handler raises "
+                  "AttributeError whatever ignore_header_errors says" % (
+                      "" if not not_text else "None (no fill value)" if not_text[0] is None else unparse(not_text[0])))
 
     # region = the loop body; statements inside a catch-all try *body* are protected
     def region_nodes():
